@@ -8,6 +8,7 @@ and checked by the property monitors on the implementation's traces.
 import glob
 import os
 import re
+from tiers import pick
 
 SIM_FILES = ["crates/maybenot-simulator/src/lib.rs", "crates/maybenot-simulator/src/network.rs",
              "crates/maybenot-simulator/src/queue.rs", "crates/maybenot-simulator/src/queue_event.rs",
@@ -57,7 +58,7 @@ def run_sim(pid, tier, seed, replay, ctx, gens, mech):
             rc, out = sh([ctx["HBIN"], "sim-replay", "--seed", str(seed)], input_bytes=open(c, "rb").read(), timeout=3600)
             texts.append(("corpus:" + os.path.basename(c), out))
         for kind, nq, nt in gens:
-            n = nq if tier == "quick" else nt
+            n = pick(tier, nq, nt)
             rc, out = sh([ctx["HBIN"], "sim-gen", "--kind", kind, "--seed", str(seed), "--cases", str(n)], timeout=7200)
             if rc != 0:
                 return {"evaluations": 0, "model_disagreements": [f"harness failed for sim kind {kind}: {out[-500:]}"]}
